@@ -100,6 +100,15 @@ class NumChecker:
             raise PathAbort()
         return r
 
+    def attempt(self, name, f, *a, **k):
+        """like call, but a raise is recorded as a failed clause `name:noraise` without ending the path;
+        returns None in that case"""
+        r = self.call_any(f, *a, **k)
+        if isinstance(r, Raised):
+            self._fail(name + ':noraise', 'raised %s: %s' % (r.type, str(r.exc)[:300]))
+            return None
+        return r
+
     def call_any(self, f, *a, **k):
         self.ncalls += 1
         try:
